@@ -26,6 +26,8 @@ M = [
  ("H19","C11","abci.go","\t\tk.DeleteRequestBatchExpiration(ctx, requestContextID, ctx.BlockHeight())\n","","expired batches stay in the expiry queue"),
  ("H20","C09","abci.go","\t\tif requestContext.State == types.RUNNING {\n\t\t\tproviders, totalPrices, rawDenom, err := k.FilterServiceProviders(","\t\tif requestContext.State != types.COMPLETED {\n\t\t\tproviders, totalPrices, rawDenom, err := k.FilterServiceProviders(","a batch that comes due while the context is paused is issued anyway"),
  ("H21","C06","abci.go","\t\t\t\t\tif err := k.DeductServiceFees(ctx, requestContext.Consumer, totalPrices); err != nil {","\t\t\t\t\tif err := k.DeductServiceFees(ctx, requestContext.Consumer, totalPrices.Add(totalPrices...)); err != nil {","the consumer must hold (and pays) twice the total; contexts are paused although they could pay"),
+ ("H23","C06","keeper/invocation.go","\t\trequestContext.ServiceFeeCap = serviceFeeCap\n","\t\t_ = serviceFeeCap\n","a context update validates the new fee cap but does not store it"),
+ ("H24","C07","keeper/binding.go","\t\tbinding.Pricing = pricing\n\t\tk.SetPricing(ctx, serviceName, provider, parsedPricing)\n","\t\t_ = parsedPricing\n","a pricing update is validated and accepted but neither the text nor the terms are stored"),
  ("H22","C20","keeper/binding.go","\tbinding.Available = false\n\tbinding.DisabledTime = ctx.BlockHeader().Time\n\n\tk.SetServiceBinding(ctx, binding)\n\n\treturn nil\n}\n\n// EnableServiceBinding","\tbinding.Available = false\n\tbinding.DisabledTime = ctx.BlockHeader().Time\n\tif len(binding.Options) > 4096 {\n\t\tpanic(\"options too long\")\n\t}\n\n\tk.SetServiceBinding(ctx, binding)\n\n\treturn nil\n}\n\n// EnableServiceBinding","(control: must NOT be detected - unreachable panic)"),
 ]
 sel = set(sys.argv[1:])
